@@ -14,6 +14,8 @@ DESIGN = dict(
     LazyUnsync=False,       # units.go 230-241 / 251-253 / 317-345, object.go 69-74: unsynchronised lazy caches
     CollideEither=False,    # map.go 115-128, any.go: two raw keys denoting one key, survivor = last iterated
     StripInPlace=False,     # oneof.go 431-439 clones before deleting the discriminator
+    StripRestore=False,     # ... and does not take it out of the caller's map temporarily either
+    DirtyScratch=False,     # object.go validateStruct allocates its scratch map of present fields per call
     NoStepMutex=False,      # step.go 200-223 holds initializerMutex
     EnumEarlyReturn=False,  # enum.go: repaired (return nil -> continue)
 )
@@ -29,6 +31,7 @@ CONCRETE = {
     ("units0", "rebuilt"): ["int_chars", "int_pct", "float_pct", "int_custom0"],
     ("objmap", "fresh"): ["objmap"], ("objmap", "rebuilt"): ["objmap", "plugin_input"],
     ("objstruct", "fresh"): ["objstruct"], ("objstruct", "rebuilt"): ["objstruct"],
+    ("objdep", "fresh"): ["objdep"], ("objdep", "rebuilt"): ["objdep"],
     ("mapcoll", "fresh"): ["mapcoll", "anycoll"], ("mapcoll", "rebuilt"): ["mapcoll", "anycoll"],
     ("oneof", "fresh"): ["oneof_map", "oneof_struct"], ("oneof", "rebuilt"): ["oneof_map", "oneof_struct"],
     ("enum", "fresh"): ["enum_str", "enum_int"], ("enum", "rebuilt"): ["enum_str", "enum_int"],
